@@ -73,6 +73,8 @@ pub(crate) struct Node {
     // interpretation of the rules by MIRI on references.
     next: *const Node,
     active_writers: AtomicUsize,
+    #[cfg(arc_swap_verif)]
+    next_tag: arc_swap_verif_rt::cell::RaceTag,
 }
 
 impl Default for Node {
@@ -83,6 +85,8 @@ impl Default for Node {
             in_use: AtomicUsize::new(NODE_USED),
             next: ptr::null(),
             active_writers: AtomicUsize::new(0),
+            #[cfg(arc_swap_verif)]
+            next_tag: arc_swap_verif_rt::cell::RaceTag::new(),
         }
     }
 }
@@ -107,6 +111,8 @@ impl Node {
             if result.is_some() {
                 return result;
             }
+            #[cfg(arc_swap_verif)]
+            node.next_tag.plain_read("Node::next");
             current = unsafe { node.next.as_ref() };
         }
         None
@@ -178,6 +184,8 @@ impl Node {
             // compare_exchange below.
             let mut head = LIST_HEAD.load(Relaxed);
             loop {
+                #[cfg(arc_swap_verif)]
+                node.next_tag.plain_write("Node::next");
                 node.next = head;
                 if let Err(old) = LIST_HEAD.compare_exchange_weak(
                     head, node,
@@ -335,9 +343,21 @@ impl Drop for LocalNode {
     }
 }
 
+#[cfg(not(arc_swap_verif))]
 #[cfg(not(feature = "experimental-thread-local"))]
 thread_local! {
     /// A debt node assigned to this thread.
+    static THREAD_HEAD: LocalNode = LocalNode {
+        node: Cell::new(None),
+        fast: FastLocal::default(),
+        helping: HelpingLocal::default(),
+    };
+}
+
+#[cfg(arc_swap_verif)]
+#[cfg(not(feature = "experimental-thread-local"))]
+arc_swap_verif_rt::thread_local! {
+    /// A debt node assigned to this thread (engine-managed storage under verification).
     static THREAD_HEAD: LocalNode = LocalNode {
         node: Cell::new(None),
         fast: FastLocal::default(),
@@ -349,6 +369,90 @@ thread_local! {
 #[thread_local]
 /// A debt node assigned to this thread.
 static THREAD_HEAD: OnceCell<LocalNode> = OnceCell::new();
+
+/// Introspection for the verification harness (never compiled into a normal build).
+#[cfg(arc_swap_verif)]
+#[allow(missing_docs)]
+pub mod verif {
+    use super::*;
+    use alloc::vec::Vec;
+
+    /// Raw snapshot of one node of the debt list (read without going through the engine).
+    #[derive(Clone, Debug)]
+    pub struct NodeInfo {
+        pub addr: usize,
+        pub in_use: usize,
+        pub active_writers: usize,
+        pub fast: Vec<usize>,
+        pub helping_slot: usize,
+        pub control: usize,
+        pub active_addr: usize,
+        /// (name, address) of every atomic of the node, for readable traces.
+        pub fields: Vec<(&'static str, usize)>,
+    }
+
+    pub const NO_DEBT: usize = Debt::NONE;
+    pub const IN_USE_UNUSED: usize = NODE_UNUSED;
+    pub const IN_USE_USED: usize = NODE_USED;
+    pub const IN_USE_COOLDOWN: usize = NODE_COOLDOWN;
+
+    /// All nodes, newest first.
+    pub fn nodes() -> Vec<NodeInfo> {
+        let mut out = Vec::new();
+        let mut cur = LIST_HEAD.peek() as *const Node;
+        while let Some(node) = unsafe { cur.as_ref() } {
+            let (control, slot, active_addr, hfields) = node.helping.verif_words();
+            let mut fields = Vec::new();
+            for (i, d) in node.fast_slots().enumerate() {
+                const N: [&str; 8] = ["fast0", "fast1", "fast2", "fast3", "fast4", "fast5", "fast6", "fast7"];
+                fields.push((N[i % 8], d.0.addr()));
+            }
+            fields.extend(hfields);
+            fields.push(("in_use", node.in_use.addr()));
+            fields.push(("active_writers", node.active_writers.addr()));
+            out.push(NodeInfo {
+                addr: node as *const Node as usize,
+                in_use: node.in_use.peek(),
+                active_writers: node.active_writers.peek(),
+                fast: node.fast_slots().map(|d| d.0.peek()).collect(),
+                helping_slot: slot,
+                control,
+                active_addr,
+                fields,
+            });
+            cur = node.next;
+        }
+        out
+    }
+
+    pub fn list_head_addr() -> usize {
+        LIST_HEAD.addr()
+    }
+
+    /// Frees every node and empties the list.
+    ///
+    /// # Safety
+    ///
+    /// No thread may own or walk a node: all threads that ever used the crate have exited (or are
+    /// engine model threads whose thread-locals were destroyed).
+    pub unsafe fn reset() {
+        let mut cur = LIST_HEAD.swap(ptr::null_mut(), SeqCst);
+        while !cur.is_null() {
+            let b = Box::from_raw(cur);
+            cur = b.next as *mut Node;
+        }
+    }
+
+    /// Sets the helping generation counter of the calling thread (C13: reach the wrap-around).
+    pub fn set_generation(gen: usize) {
+        LocalNode::with(|l| l.helping.verif_set_generation(gen));
+    }
+
+    /// The helping generation counter of the calling thread.
+    pub fn generation() -> usize {
+        LocalNode::with(|l| l.helping.verif_generation())
+    }
+}
 
 #[cfg(test)]
 mod tests {
